@@ -133,6 +133,16 @@ func (s *Session) Update(msg *message.ConnectMessage) error {
 		return err
 	}
 
+	// the will belongs to the connection, not to the session: take it from this CONNECT
+	s.Will = nil
+	if s.Cmsg.WillFlag() {
+		s.Will = message.NewPublishMessage()
+		s.Will.SetQoS(s.Cmsg.WillQos())
+		s.Will.SetTopic(s.Cmsg.WillTopic())
+		s.Will.SetPayload(s.Cmsg.WillMessage())
+		s.Will.SetRetain(s.Cmsg.WillRetain())
+	}
+
 	return nil
 }
 
